@@ -631,7 +631,7 @@ Theorem client_hello_reencode_canonical_iff : forall bs rest m0, bytes_ok bs ->
 Proof. exact TlsReencodeCanon.client_hello_reencode_canonical_iff. Qed.
 Print Assumptions client_hello_reencode_canonical_iff.
 
-(* ... and every way the decoders accept more than that, one witness each (replayed on tls.py, corpus/C17/tls-reenc-*) *)
+(* ... and every way the decoders accept more than that, one witness each (replayed on tls.py, corpus cases tls-reenc-...) *)
 Theorem nst_reencode_order_refuted :
   exists b, reenc_nst w_nst_order = Some b /\ b <> w_nst_order /\ Zlen b = Zlen w_nst_order.
 Proof. exact TlsReencodeWitness.nst_reencode_order_refuted. Qed.
